@@ -5,6 +5,7 @@ import (
 	"io"
 	"strings"
 	"testing"
+	"testing/iotest"
 
 	"pault.ag/go/debian/control"
 	"pgregory.net/rapid"
@@ -117,7 +118,7 @@ func readAllWays(text string) (map[string][]control.Paragraph, error) {
 
 var specC07Model = Register(&Spec[DocCase]{
 	Prop: "C07", Name: "model",
-	Rule: "deb822 documents rendered from a model: 0..5 paragraphs of 1..6 uniquely named fields ([A-Za-z0-9][A-Za-z0-9_.+-]*), ':' + 0..3 blanks, first line text (possibly empty; may contain ':' '#' UTF-8) with trailing blanks, 0..6 continuation lines (marker space or tab, then ' .' or freely indented text, trailing blanks), '#' comment lines at every kind of line boundary, 1..3 blank lines between paragraphs, 0..2 before/after, LF or CRLF, final newline present or absent. Oracle: All(), a Next() loop, Unmarshal(&[]T) and a Decoder.Decode(&T) loop all return exactly the model paragraphs: Order = names in file order, value = first line if no continuation else logical lines joined by newline + trailing newline (a kept empty first line is accepted too). Non-trivial: >= 2 paragraphs, a continuation, a comment inside a field, CRLF or no final newline; distinct by text.",
+	Rule: "deb822 documents rendered from a model: 0..5 paragraphs of 1..6 uniquely named fields ([A-Za-z0-9][A-Za-z0-9_.+-]*), ':' + 0..3 blanks, first line text (possibly empty; may contain ':' '#' UTF-8) with trailing blanks, 0..6 continuation lines (marker space or tab, then ' .' or freely indented text, trailing blanks), '#' comment lines at every kind of line boundary, 1..3 blank lines between paragraphs, 0..2 before/after, LF or CRLF, final newline present or absent. Oracle: All(), a Next() loop, Unmarshal(&[]T) and a Decoder.Decode(&T) loop all return exactly the model paragraphs, and so does All() when the source is a one-byte-at-a-time reader, a half reader or a reader that delivers its last data together with io.EOF: Order = names in file order, value = first line if no continuation else logical lines joined by newline + trailing newline (a kept empty first line is accepted too). Non-trivial: >= 2 paragraphs, a continuation, a comment inside a field, CRLF or no final newline; distinct by text.",
 	Check: func(c DocCase, r *Recorder) error {
 		nt := false
 		for _, f := range c.Feats {
@@ -139,9 +140,29 @@ var specC07Model = Register(&Spec[DocCase]{
 				return errf("document %q: %v", c.Text, err)
 			}
 		}
+		// the source is any io.Reader: one byte at a time, half reads, data delivered together with EOF
+		for name, mk := range oddReaders {
+			pr, err := control.NewParagraphReader(mk(strings.NewReader(c.Text)), nil)
+			if err != nil {
+				return errf("NewParagraphReader over a %s: %v", name, err)
+			}
+			ps, err := pr.All()
+			if err != nil {
+				return errf("All() over a %s rejected well-formed document %q: %v", name, c.Text, err)
+			}
+			if err := parasMatch(ps, c.Want, "All() over a "+name); err != nil {
+				return errf("document %q: %v", c.Text, err)
+			}
+		}
 		return nil
 	},
 })
+
+var oddReaders = map[string]func(io.Reader) io.Reader{
+	"one-byte reader":      iotest.OneByteReader,
+	"half reader":          iotest.HalfReader,
+	"data-with-EOF reader": iotest.DataErrReader,
+}
 
 func TestC07_Model(t *testing.T) {
 	specC07Model.Run(t, func(t *rapid.T) DocCase { return genDocCase(t, 5) }, 15000, 150000)
